@@ -109,6 +109,8 @@ def curated():
     out.append(D("exactlyk2-uncrossed", [c2, d2], cross(["c", "d"], ["c"], [["ExactlyK", 2, "d", "x"], ["MinimumTrials", 4]]), ["exactlyk", "mintrials"]))
     out.append(D("exactlyk1-crossed", [c2, d2], cross(["c", "d"], ["c", "d"], [["ExactlyK", 2, "c", "r"]]), ["exactlyk"]))
     out.append(D("exactlyk3-impossible", [c2], cross(["c"], ["c"], [["ExactlyK", 3, "c", "r"]]), ["exactlyk", "k>n"]))
+    out.append(D("exactlyk3-uncrossed-impossible", [c2, d2], cross(["c", "d"], ["c"], [["ExactlyK", 3, "d", "x"]]), ["exactlyk", "k>n", "nosolution"]))
+    out.append(D("exactlyk2-uncrossed-repeat-partial", [c2, d2], repeat(cross(["c", "d"], ["c"], [["ExactlyK", 2, "d", "x"]]), [["MinimumTrials", 3]]), ["exactlyk", "repeat", "partial", "scope-inner"]))
     for idx in (0, 1, -1, -2, 5, -5, 3, 4, -4):          # 3 / -4: the last / first trial addressed from the other end; 4: just out of range
         out.append(D(f"pin{idx}", [c2, d2], cross(["c", "d"], ["c", "d"], [["Pin", idx, "c", "r"]]), ["pin"]))
     out.append(D("pin-uncrossed", [c2, d2], cross(["c", "d"], ["c"], [["Pin", 1, "d", "x"]]), ["pin"]))
@@ -171,6 +173,10 @@ def curated():
     out.append(D("window2-stride2-start3-reified", [c2, window_last("v", "c", A2, 2, stride=2, start=3)], cross(["c", "v"], ["c"], lax), ["window", "stride", "start", "atmost", "mintrials"]))
     out.append(D("window2-stride3-start0-reified", [c2, window_last("v", "c", A2, 2, stride=3, start=0)], cross(["c", "v"], ["c"], lax), ["window", "stride", "start", "atmost", "mintrials"]))
     out.append(D("window3-stride2-reified", [c2, window_last("v", "c", A2, 3, stride=2)], cross(["c", "v"], ["c"], lax), ["window", "stride", "atmost", "mintrials"]))
+    # crossed plain windows with an explicit start (earlier / later than the default)
+    out.append(D("window2-start0-crossed", [c2, window_last("v", "c", A2, 2, start=0)], cross(["c", "v"], ["c", "v"]), ["window", "start", "derived-crossed", "preamble"]))
+    out.append(D("window2-start3-crossed", [c2, window_last("v", "c", A2, 2, start=3)], cross(["c", "v"], ["c", "v"]), ["window", "start", "derived-crossed", "preamble"]))
+    out.append(D("window1-start2-crossed", [c2, window_last("v", "c", A2, 1, start=2)], cross(["c", "v"], ["v"]), ["window", "start", "derived-crossed", "preamble"]))
     out.append(D("window2-crossed", [c2, window_last("v", "c", A2, 2)], cross(["c", "v"], ["c", "v"]), ["window", "derived-crossed", "preamble"]))
     out.append(D("window2-stride2-atmost", [c2, d2, window_last("v", "c", A2, 2, stride=2)],
                  cross(["c", "d", "v"], ["c", "d"], [["AtMostKInARow", 1, "v", "hit"]]), ["window", "stride", "atmost"]))
